@@ -44,4 +44,12 @@ finally:
     # put the generated parameters back to /repo's
     run(["/venv/bin/python", "/verif/harness/translate.py", "/repo/src"])
 res["caught"] = bool(res.get("check_exit") == 1 and res.get("check_lines"))
-print(json.dumps(res, indent=1, default=str)[:6000])
+def clip(x, n=1500):
+    if isinstance(x, str):
+        return x[:n]
+    if isinstance(x, dict):
+        return {k: clip(v, n) for k, v in x.items()}
+    if isinstance(x, list):
+        return [clip(v, n) for v in x[:40]]
+    return x
+print(json.dumps(clip(res), indent=1, default=str))
